@@ -456,6 +456,10 @@ def check(prop, tier, seed):
                 e = ev['excluded'].setdefault(k, dict(hits=0, example=''))
                 e['hits'] += v['hits']
                 e['example'] = e['example'] or (s['site'] + ': ' + v['example'])
+                for c, n in v.get('classes', {}).items():
+                    cl = e.setdefault('classes', {})
+                    if c in cl or len(cl) < 40:
+                        cl[c] = cl.get(c, 0) + n
             for k, v in s.get('regions', {}).items():
                 tail = s['site'].rsplit('|', 1)[-1]
                 r = ev.setdefault('regions', {}).setdefault(k + (' @' + tail if tail in ('builtin', 'portable') else ''), [0, 0])
